@@ -378,6 +378,14 @@ def unfoldAt (red bin : OpK) (vars : List Name) (pre : List (Ex α)) (v : Ex α)
     else none
   | _ => none
 
+/-- What the canonical-order pass must NOT do: collect the operands in a SET / dict keyed by the operand
+    (`rank = {v: …}; sorted(rank, key=rank.get)`) — an operand occurring twice (one interned object) is kept
+    once.  `same` is the identity test.  (Only used by the witness theorem `canonOrder_by_set_witness`.) -/
+def canonOrderBySet (same : Ex α → Ex α → Bool) : Ex α → Option (Ex α)
+  | .contr red bin vars ts =>
+    some (.contr red bin vars (ts.foldl (fun acc t => if acc.any (same t) then acc else acc ++ [t]) []))
+  | _ => none
+
 /-- What the distribution branch must NOT do: select "the other factors" by an identity test
     (`others = tuple(t for t in terms if t is not v)`) instead of by POSITION (`terms[:i] + terms[i+1:]`,
     as `unfoldAt`'s `pre` / `post`).  Funsors are interned, so an equal factor occurring twice is one
